@@ -45,6 +45,7 @@ func recByEntropy(ent []byte, lang int64, extra Event) (out string, err error) {
 		e["ent"] = []int{}
 	}
 	emit(merge(o.into(e), extra))
+	keepString(out)
 	return
 }
 
@@ -69,6 +70,36 @@ func recCheckHuge(in string, desc string, lang int64) {
 		valid = bip39.IsMnemonicValid(in, bip39.Language(lang))
 	})
 	emit(o.into(Event{"op": "CheckHuge", "desc": desc, "in_len": len(in), "lang": langField(lang), "err": errRec(err), "valid": valid}))
+}
+
+// Strings returned by the library are kept together with a copy of their bytes taken at return time and are
+// compared again later (Recheck events): a returned sentence must not change under later calls (C13).
+var keptStrs []string
+var keptStrCopies [][]byte
+var keptStrLines []int
+
+func keepString(s string) {
+	if concMode || len(s) == 0 {
+		return
+	}
+	if len(keptStrs) >= 512 { // keep a sliding window of the most recent results
+		recheckStrings()
+	}
+	keptStrs, keptStrCopies, keptStrLines = append(keptStrs, s), append(keptStrCopies, []byte(s)), append(keptStrLines, nEvents)
+}
+
+func recheckStrings() {
+	bad := 0
+	for i := range keptStrs {
+		same := keptStrs[i] == string(keptStrCopies[i])
+		if !same || i == len(keptStrs)-1 { // one summary event per window, one event per changed string
+			if !same {
+				bad++
+			}
+			emit(Event{"op": "Recheck", "kind": "string", "ref": keptStrLines[i], "same": same, "window": len(keptStrs)})
+		}
+	}
+	keptStrs, keptStrCopies, keptStrLines = nil, nil, nil
 }
 
 var keptSeeds [][]byte // returned slices kept for Recheck events
@@ -115,6 +146,7 @@ func recToSeedHuge(m, p string, desc string) {
 
 // recheckSeeds: every seed returned earlier still has the value it had at return.
 func recheckSeeds() {
+	recheckStrings()
 	for i := range keptSeeds {
 		emit(Event{"op": "Recheck", "kind": "seed", "ref": keptLines[i], "same": bytes.Equal(keptSeeds[i], keptCopies[i])})
 	}
@@ -232,6 +264,7 @@ func recNewMnemonic(n int64, lang int64, extra Event) (out string, err error) {
 	o := guarded(func() { out, err = bip39.NewMnemonic(int(n), bip39.Language(lang)) })
 	e := Event{"op": "NewMnemonic", "n": bigRec(n), "lang": langField(lang), "out": units(out), "err": errRec(err), "errid": errID(err)}
 	emit(merge(o.into(e), extra))
+	keepString(out)
 	return
 }
 
